@@ -412,6 +412,8 @@ type CWorld struct {
 	// conns: one client connection per channel, kept across the history phases of a case
 	conns  map[transport.Channel]client.Connection
 	connMu sync.Mutex
+	// counter: when set, every verifier the principal parser hands out counts its Verify calls here
+	counter *int64
 }
 
 // fakeSigner claims one DID and signs with another principal's key (or absentee).
@@ -910,6 +912,16 @@ func (cw *CWorld) context(log *runLog) (canIssue validator.CanIssueFunc[any], ch
 			return v, nil
 		}
 		return rsaverifier.Parse(str)
+	}
+	if cw.counter != nil {
+		plain := parse
+		parse = func(str string) (principal.Verifier, error) {
+			v, err := plain(str)
+			if err != nil {
+				return nil, err
+			}
+			return countingVerifier{v, cw.counter}, nil
+		}
 	}
 	rk := map[string]did.DID{}
 	for _, kv := range w.ResolveKey {
